@@ -282,6 +282,15 @@ func (r *replayer) validate(er *entryResult) (int, []string) {
 		lb, _ := os.ReadFile(logPath)
 		got := filterTrace(nativeTrace(string(lb)), r.cfg.Property)
 		want := filterTrace(vc.trace, r.cfg.Property)
+		if strings.Contains(out, "ZZVERIF-ASSUME-FAIL") {
+			// the model satisfied an assumption only through an abstraction (uninterpreted function) that the
+			// native run computes for real: not comparable, try the next case
+			limit++
+			if limit > 8 {
+				break
+			}
+			continue
+		}
 		n++
 		if vc.outcome == "return" && !strings.Contains(out, "ZZVERIF-DONE") {
 			mism = append(mism, fmt.Sprintf("%s path %d: symbolic path returns, native run did not finish: %s", er.Entry.Name, vc.pathID, tail(out, 6)))
